@@ -1,6 +1,7 @@
 package main
 
 import (
+	"go/token"
 	"fmt"
 	"go/types"
 	"regexp"
@@ -732,4 +733,75 @@ func (e *Engine) extModelCall(st *State, x *ssa.Call, name string, args []Value)
 		}
 		return nil, true
 	}
+}
+
+
+// smallPureLeaf: a callee that is merged automatically (like the functions on the per-group merge list): a small
+// branching helper without calls, stores, allocations or loops whose results are scalars - `boolByte(v)`,
+// `zigZag32(v)`, a size table written as a switch. Called with at least one symbolic scalar argument it would
+// fork the caller once per call; merged, its result is one ite-term. mergeCall itself still refuses (and the
+// ordinary call happens) if the sub-exploration touches the heap.
+func (e *Engine) smallPureLeaf(fn *ssa.Function, args []Value) bool {
+	if e.leafCache == nil {
+		e.leafCache = map[*ssa.Function]bool{}
+	}
+	ok, seen := e.leafCache[fn]
+	if !seen {
+		ok = isSmallPureLeaf(fn)
+		e.leafCache[fn] = ok
+	}
+	if !ok {
+		return false
+	}
+	for _, a := range args {
+		if t, isT := a.(*Term); isT && !t.IsConst() {
+			return true
+		}
+	}
+	return false
+}
+
+func isSmallPureLeaf(fn *ssa.Function) bool {
+	if fn.Blocks == nil || len(fn.Blocks) < 2 || len(fn.Blocks) > 24 || len(fn.FreeVars) > 0 {
+		return false
+	}
+	res := fn.Signature.Results()
+	if res.Len() == 0 {
+		return false
+	}
+	for i := 0; i < res.Len(); i++ {
+		if _, basic := res.At(i).Type().Underlying().(*types.Basic); !basic {
+			return false
+		}
+	}
+	for i := 0; i < fn.Signature.Params().Len(); i++ {
+		if _, basic := fn.Signature.Params().At(i).Type().Underlying().(*types.Basic); !basic {
+			return false
+		}
+	}
+	for _, b := range fn.Blocks {
+		for _, in := range b.Instrs {
+			switch v := in.(type) {
+			case *ssa.BinOp, *ssa.UnOp, *ssa.Convert, *ssa.ChangeType, *ssa.Phi, *ssa.Return, *ssa.Jump, *ssa.DebugRef:
+				if u, isUn := v.(*ssa.UnOp); isUn && u.Op == token.MUL { // a load
+					return false
+				}
+			case *ssa.If:
+				// a back edge means a loop
+				for _, succ := range b.Succs {
+					if succ.Index <= b.Index {
+						return false
+					}
+				}
+			default:
+				return false
+			}
+		}
+		for _, succ := range b.Succs {
+			if succ.Index <= b.Index {
+				return false
+			}
+		}
+	}
+	return true
 }
